@@ -1,6 +1,21 @@
 //@include prelude/header.rs
 // Unit history (pure lemmas + two bridge functions): lifts the ONE-STEP contract proved for analyze_file (unit analyze)
 // to the quantifier "all histories" of properties C06 / C10.
+//   prelude/history_vocab.rs  in_file / named / all_in_file / uses_in_file / w1 (verbatim the definitions of analyze_l2.rs)
+//   prelude/history_seq.rs    filter algebra, multiset counting, map extensionality under "no empty bucket"  (all proved)
+//   prelude/history_spec.rs   IdxV, step, step_fresh, run, run_fresh, last_valid, fresh, projections, invariants, normal forms
+//   prelude/history_nf.rs     bucket-level normal forms of push_defs / add_fdefs / push_uses / push_byfix / clean_*   (proved)
+//   prelude/history_l2.rs     one step in normal form, invariants, the history theorems and their corollaries         (proved)
+//   this file                 the link to the code (stub of analyze_file / analyze_file_fresh called under contract; the
+//                             @sig text as hypothesis of lemma_step_is_analyze_post), histories of DATABASE states, which
+//                             answers are insensitive to bucket interleaving (order lemmas of unit resolver_core), canaries.
+// Events are (canonical file, text): a didOpen / didChange that reached analyze_file (unit handlers_main: did_open_post /
+// did_change_post = analyze_file's post state; didClose touches no index map).  canon = canon_now is a function of ONE
+// file-system state (A4): a path whose canonical form changes during a session is two files here.
+// EXPLICIT HYPOTHESIS (the only one): visitors_file_local -- every definition / usage the visitors record for (f, t) is
+// filed under f.  Discharged by unit visit: lemma_C06_visit_defs_in_file / lemma_C06_visit_uses_in_file (prelude/visit_l2.rs;
+// including that file here re-verifies the whole visitor L2 and made this unit unstable, so it is cited, not included).
+// No assume / admit / axiom in the history_* files.
 use rustpython_parser::{parse, Mode};
 use rustpython_parser::ast::{Stmt, Expr, Keyword, Identifier, Constant, ExceptHandler, ExprCall, Alias, Arguments, ArgWithDefault};
 use rustpython_parser::text_size::TextRange;
@@ -37,7 +52,7 @@ use super::*;
 //@include prelude/line_spec.rs
 //@include prelude/visit_spec.rs
 //@include prelude/analyze_spec.rs
-//@include prelude/analyze_l2.rs
+//@include prelude/history_vocab.rs
 //@include prelude/memokeys_spec.rs
 //@include prelude/fs_canonical_decl.rs
 //@include prelude/memokeys_canon_spec.rs
@@ -289,7 +304,7 @@ proof fn canary_history_without_w1(s0: IdxV, es: Seq<Ev>, g: PV, n: Seq<char>)
     ensures pdefs(run(s0, es), g, n) == tdefs(g, last_valid(es, g), n)
 {
     if es.len() > 0 && parse_ok(es.last().1) && es.last().0 == g {
-        lemma_push_defs_bucket(clean_defs_names(run(s0, es.drop_last()).defs, g, sbucket(run(s0, es.drop_last()).fdefs, g)), vd(g, es.last().1), g, n);
+        lemma_push_defs_nf(clean_defs_names(run(s0, es.drop_last()).defs, g, sbucket(run(s0, es.drop_last()).fdefs, g)), vd(g, es.last().1), n);
     }
 }
 /// equality of the definitions map (bucket ORDER included) with ANY fresh server that has the same latest contents
@@ -316,7 +331,7 @@ proof fn canary_restore_without_w1(polluted: IdxV, f: PV, t: Seq<char>, n: Seq<c
     requires ev_local(f, t), parse_ok(t)
     ensures pdefs(step(polluted, f, t), f, n) == tdefs(f, Some(t), n)
 {
-    lemma_push_defs_bucket(clean_defs_names(polluted.defs, f, sbucket(polluted.fdefs, f)), vd(f, t), f, n);
+    lemma_push_defs_nf(clean_defs_names(polluted.defs, f, sbucket(polluted.fdefs, f)), vd(f, t), n);
 }
 /// C10 (a) without the no-empty-bucket clauses: exact state equality from W1 and agreement outside f alone
 proof fn canary_restore_exact_without_nonempty(polluted: IdxV, clean: IdxV, f: PV, t: Seq<char>)
